@@ -1466,7 +1466,16 @@ def _private_generators_to_lists(tree):
             if isinstance(user, ast.Call) and call in user.args and isinstance(user.func, ast.Name) and user.func.id in LAZY_CONSUMERS and user.func.id not in ('next', 'iter'):
                 kind = 'lazy'
                 continue
-            if isinstance(user, (ast.For, ast.comprehension)) and user.iter is call:
+            if isinstance(user, ast.comprehension) and user.iter is call:
+                comp = parents.get(id(user))
+                # a comprehension whose own parts do nothing but compute (no calls beyond pure builtins): running the generator first changes nothing
+                parts = [comp.elt] if hasattr(comp, 'elt') else [comp.key, comp.value]
+                parts += [c for g in comp.generators for c in g.ifs] + [g.iter for g in comp.generators if g is not user]
+                calm = all(not isinstance(y, ast.Call) or (isinstance(y.func, ast.Name) and y.func.id in GEN_PURE_CALLS) for p_ in parts for y in ast.walk(p_))
+                if not (calm and comp.generators[0] is user and not isinstance(comp, ast.GeneratorExp)):
+                    kind = 'lazy'
+                continue
+            if isinstance(user, ast.For) and user.iter is call:
                 kind = 'lazy'
                 continue
             if isinstance(user, ast.YieldFrom):
